@@ -334,7 +334,7 @@ def expectedPanicSites : List (String × String) :=
    ("must note/degree.go <init> util.MustInverseMap(stringCoerceDegreeNameMap)", "start-up table, injective (C12 inverted_tables_injective)"),
    ("must note/name.go <init> util.MustInverseMap(nameStringMap)", "start-up table, injective"),
    ("must note/name.go <init> util.MustNewRing(C, D, E, F, G, A, B)", "constants, non-empty"),
-   ("must note/note.go <init> regexp.MustCompile(`([A-G])([#b]?)`)", "constant pattern"),
+   ("must note/note.go <init> regexp.MustCompile(`([A-G])([#b♯♭]?)`)", "constant pattern"),
    ("must op/circle.go circleMemberSeed.member MustNewScale(MustParseKey(x))", "x ranges over the circle seeds: C14 circles_build"),
    ("must op/circle.go circleMemberSeed.member MustParseKey(x)", "x ranges over the circle seeds: C14 circles_build"),
    ("must op/circle.go circleSeed.circle util.MustNewRing(xs)", "twelve seeds, non-empty"),
